@@ -625,15 +625,14 @@ RebalanceModule(s) ==
   ELSE LET s0 == [s EXCEPT !.flag = FALSE] IN RebalanceLoop(s0, s0, BondedInfoSeq(s0))
 
 \* x/alliance EndBlocker (module-owned effects; NOT atomic, an error aborts the chain)
-EndBlock(s) ==
+EndBlockPre(s) ==        \* everything before the rebalance
   LET s1 == CompleteRedelegations(s)
       r2 == CompleteUnbondings(s1)
   IN  IF ~r2.ok THEN r2
       ELSE LET s3 == InitAssets(r2.s)
                r4 == TakeRate(s3)
-           IN  IF ~r4.ok THEN r4
-               ELSE LET r5 == WeightDecay(r4.s)
-                    IN  IF ~r5.ok THEN r5 ELSE RebalanceModule(r5.s)
+           IN  IF ~r4.ok THEN r4 ELSE WeightDecay(r4.s)
+EndBlock(s) == LET r5 == EndBlockPre(s) IN IF ~r5.ok THEN r5 ELSE RebalanceModule(r5.s)
 
 -----------------------------------------------------------------------------
 (* keeper/msg_server.go, types/gov.go, proposal_handler.go: governance *)
